@@ -314,6 +314,7 @@ TZS = [None, None, dt.timezone.utc, dt.timezone(dt.timedelta(hours=5, minutes=30
 
 
 SUBS = False     # when True, some leaf values are instances of proper subclasses (C03)
+CATCH_ALL_VALUES = None   # optional callable (rng, cls type node, built, size) -> the mapping held by a CatchAll field (C03)
 
 
 def gen_scalar(rng, k):
@@ -461,6 +462,9 @@ def gen_instance(rng, t, built, size=3, use_defaults_prob=0.3):
         if not f.get('init', True):
             continue
         if f.get('dflt') is not None and rng.random() < use_defaults_prob:
+            continue
+        if f.get('catch_all') and CATCH_ALL_VALUES is not None:
+            kw[f['name']] = CATCH_ALL_VALUES(rng, t, built, size)
             continue
         if f.get('catch_all'):
             kw[f['name']] = {} if rng.random() < 0.5 else {'extra_' + str(i): rng.choice([1, 'v', None, [1]]) for i in range(rng.randint(1, 2))}
